@@ -333,3 +333,39 @@ pub fn catch<T>(f: impl FnOnce() -> T) -> Result<T, String> {
         }
     })
 }
+
+/// Every integer literal occurring in the given source files of /repo (relative paths),
+/// test modules excluded.  Generators add them (and neighbours) to their value pools.
+pub fn harvest_literals(files: &[&str]) -> Vec<u128> {
+    let repo = std::env::var("VERIF_REPO").unwrap_or_else(|_| "/repo".to_string());
+    let mut out = std::collections::BTreeSet::new();
+    for f in files {
+        let p = Path::new(&repo).join(f);
+        let Ok(src) = std::fs::read_to_string(&p) else { continue };
+        let src = match src.find("#[cfg(test)]") {
+            Some(i) => &src[..i],
+            None => &src[..],
+        };
+        let b = src.as_bytes();
+        let mut i = 0;
+        while i < b.len() {
+            if b[i].is_ascii_digit() && (i == 0 || !(b[i - 1].is_ascii_alphanumeric() || b[i - 1] == b'_')) {
+                let mut j = i;
+                let mut digits = String::new();
+                while j < b.len() && (b[j].is_ascii_digit() || b[j] == b'_') {
+                    if b[j] != b'_' {
+                        digits.push(b[j] as char);
+                    }
+                    j += 1;
+                }
+                if let Ok(v) = digits.parse::<u128>() {
+                    out.insert(v);
+                }
+                i = j;
+            } else {
+                i += 1;
+            }
+        }
+    }
+    out.into_iter().collect()
+}
